@@ -16,7 +16,7 @@ for p in C03 C04 C05 C11 C14 C20; do
     case $p in C03|C05|C20) bin=.build/simcheck-i; [ "$2" = race ] && bin=.build/simcheck-i-race;; esac
     i=$((i+1))
     ( GOMAXPROCS=$1 GORACE="exitcode=0 halt_on_error=0 log_path=$tmp/racelog" VERIF_RACELOG=$tmp/racelog VERIF_SEED="${VERIF_SEED:-1}" \
-        $bin trace -prop $p -seed "${VERIF_SEED:-1}" -from 0 -count "$count" 2>/dev/null | sed -E 's#/tmp/c(11|05|20)[a-z]*-[0-9-]*#TMP#g' | md5sum | cut -c1-16 > "$tmp/$p.$i" ) &
+        $bin trace -prop $p -seed "${VERIF_SEED:-1}" -from 0 -count "$count" 2>/dev/null | sed -E 's#/?tmp/c(11|05|20)[a-z]*-[0-9-]*#TMP#g' | md5sum | cut -c1-16 > "$tmp/$p.$i" ) &
   done
   wait
   ref=$(cat "$tmp/$p.1")
